@@ -62,7 +62,8 @@ Canon(w) ==
 ----------------------------------------------------------------------------
 (* Alloc: make([]T, ch*L, ch*K) -- panics like make() on L > K or negatives *)
 AllocF(w, ch, L, K, bd) ==
-    IF ch < 0 \/ L < 0 \/ K < 0 \/ L > K THEN R(w, "panic")
+    IF ch < 0 \/ L < 0 \/ K < 0 THEN R(w, "unspec")                \* outside every listed property
+    ELSE IF ch * L > ch * K THEN R(w, "panic")                        \* make([]T, len, cap) with len > cap
     ELSE R(W(Append(w.mem, [i \in 1..(ch*K) |-> 0]),
              Append(w.views, View(Len(w.mem) + 1, 0, ch*L, ch*K, ch, bd))), "ok")
 
